@@ -110,7 +110,7 @@ fn done<I: ConcurrentIter>(it: &I) {
     assert!(it.next().is_none(), "C12 C05: the iterator must be exhausted when for_each/fold returns");
 }
 
-// @verif family=ENV hook=1 quick=C12 thorough=C01,C02 timeout=1200 owner=C12
+// @verif family=ENV hook=1 quick=C12 thorough=C01,C02 timeout=1800 owner=C12
 // @bounds kind=&[u8] len<=3; for_each(n) with n in [1,4] (both code paths) while another party performs <=2 complete pulls (next_id_and_value / next_chunk(m<=4)) at arbitrary atomic access points of the loop
 #[kani::proof]
 #[kani::unwind(7)]
@@ -128,7 +128,7 @@ fn env_for_each_slice() {
     verdict(len);
 }
 
-// @verif family=ENV hook=1 quick=C12 thorough=C02 timeout=1200 owner=C12
+// @verif family=ENV hook=1 quick=C12 thorough=C02 timeout=1800 owner=C12
 // @bounds kind=&[u8] len<=3; enumerate_for_each(n) with n in [1,4] while another party performs <=2 complete pulls at arbitrary access points; index arguments checked against pointer identity
 #[kani::proof]
 #[kani::unwind(7)]
@@ -152,7 +152,7 @@ fn env_enumerate_slice() {
     verdict(len);
 }
 
-// @verif family=ENV hook=1 quick=C12 timeout=1200 owner=C12
+// @verif family=ENV hook=1 quick=C12 timeout=1800 owner=C12
 // @bounds kind=&[u8] len<=3 with contents = position+1; fold(n, 0, +) with n in [1,4] while another party performs <=2 complete pulls; loop's sum + the other party's sum = sequential sum
 #[kani::proof]
 #[kani::unwind(7)]
@@ -186,7 +186,7 @@ fn env_fold_slice() {
     assert!(sum + other == want, "C12: combining the fold results of all parties does not give the sequential fold");
 }
 
-// @verif family=ENV hook=1 thorough=C12,C06 timeout=1200 owner=C12
+// @verif family=ENV hook=1 thorough=C12,C06 timeout=1800 owner=C12
 // @bounds kind=&[u8] len<=3; for_each(n) with n in [1,4] while another party performs <=2 actions (pulls or skip_to_end) at arbitrary access points: nothing visited twice, the call returns
 #[kani::proof]
 #[kani::unwind(7)]
